@@ -523,7 +523,10 @@ Inductive xact :=
      initializer issuing the update (it propagates out of _create_simulants) *)
   | AUpdate (s : vspec) (ord : list cid) (u : upd) (prop : bool) (code : Z)
   | ARead                                                            (* a read (or nothing): the table is observed *)
-  | AUnobserved (s : vspec) (ord : list cid) (u : upd).               (* the manager's own initializer *)
+  | AUnobserved (s : vspec) (ord : list cid) (u : upd)                (* the manager's own initializer *)
+  | ARefused.     (* the manager's own update is refused by the life cycle (creation requested from a post_setup /
+                     simulation_end listener, or after the simulation has ended): it raises before anything is written *)
+Definition refused_action : uaction := mkuaction (mkview []) [] UNotPandas true.   (* an update that raises, uncaught *)
 Definition act_rec := (xact * tobs)%type.
 Inductive xop :=
   | XAct (a : act_rec)
@@ -573,6 +576,7 @@ Definition run_act (f : flags) (t last : table) (a : act_rec) : act_out :=
       | _ => mkout false t last [] false
       end
   | ARead => let '(okt, last') := obs_ok t last o in mkout okt t last' [] false
+  | ARefused => let '(okt, last') := obs_ok t last o in mkout okt t last' [refused_action] true
   end.
 
 Fixpoint run_acts (f : flags) (t last : table) (acts : list act_rec) : act_out :=
